@@ -387,12 +387,18 @@ def r6(ctx, cls):
       ctx.ob('C07.R6', pq, 'only a live waiter (non-empty stack) is forwarded', live, 'forwarded waiter is not checked for a drained stack: facts %s' % fs,
              why + '; forwarding a timed-out request also transmits it after its caller got TimeoutError (C12)')
       pushes = [e.node for e in ev[:i] if e.kind == 'call' and call_attr(e.node) == 'Push' and U(e.node.func.value) == wstack]
-      popsk = [e.node for e in ev[:i] if e.kind == 'stmt' and isinstance(e.node, ast.Assign) and U(e.node.value).replace(' ', '') == '%s.Pop()' % wstack]
-      ok = len(pushes) >= 1 and len(popsk) >= 1
+      popsk = [e.node for e in ev[:i] if e.kind == 'stmt' and isinstance(e.node, ast.Assign) and U(e.node.value).replace(' ', '') in ('%s.Pop()' % wstack, '%s.Pop()[0]' % wstack)]
+      npop = len([e for e in ev[:i] if e.kind == 'call' and call_attr(e.node) == 'Pop' and U(e.node.func.value) == wstack])
+      ok = len(pushes) >= 1 and npop == 1
       if ok:
         p = pushes[-1]
-        orig = U(popsk[-1].targets[0].elts[0]) if isinstance(popsk[-1].targets[0], ast.Tuple) else None
-        ok = len(p.args) == 2 and U(p.args[0]) == orig and U(p.args[1]) == sink
+        j_ = [k_ for k_, e in enumerate(ev[:i]) if e.kind == 'call' and e.node is p][-1]
+        orig = U(popsk[-1].targets[0].elts[0]) if popsk and isinstance(popsk[-1].targets[0], ast.Tuple) else None
+        a0 = p.args[0] if p.args else next((k.value for k in p.keywords if k.arg == 'sink'), None)
+        a1 = p.args[1] if len(p.args) > 1 else next((k.value for k in p.keywords if k.arg == 'context'), None)
+        # the sink put back is the one just popped (named by unpacking, or the first field of the popped frame however it is reached)
+        t0 = resolved_text(ev, j_, a0).replace(' ', '') if a0 is not None else ''
+        ok = a0 is not None and a1 is not None and len(p.args) + len(p.keywords) == 2 and U(a1) == sink and ((orig is not None and U(a0) == orig) or t0 == '%s.Pop()[0]' % wstack)
       ctx.ob('C07.R6', pq, 'the pool is re-pushed with the connection as context before forwarding', ok, 'pop/push before the forward: %s / %s' % ([U(x) for x in popsk], [U(x) for x in pushes]),
              'the response path releases the pushed context: it must be this connection')
       # the forwarded waiter is the one dequeued (same tuple)
